@@ -463,6 +463,9 @@ func (s *session) doTargetTooHigh(reject targetTooHigh) (nextState resendState, 
 
 func (s *session) sendResendRequest(beginSeq, endSeq int) (nextState resendState, err error) {
 	nextState.resendRangeEnd = endSeq
+	// Always start with a stash so that early messages kept by later calls are not lost when
+	// the state is handled by value.
+	nextState.messageStash = make(map[int]*Message)
 
 	resend := NewMessage()
 	resend.Header.SetBytes(tagMsgType, msgTypeResendRequest)
